@@ -101,10 +101,12 @@ func (r *Reader) GetValue(key []byte, readTs uint64) ([]byte, error) {
 	if err != nil {
 		return nil, err
 	}
-	if entry.Meta&kv.BitDelete > 0 || entry.Value == nil {
+	if entry.Meta&kv.BitDelete > 0 {
 		return nil, utils.ErrKeyNotFound
 	}
-	return kv.SafeCopy(nil, entry.Value), nil
+	// A committed put of the empty value is a value (its copy is a nil slice when it is
+	// read back from an SST): only the delete bit says otherwise.
+	return append([]byte{}, entry.Value...), nil
 }
 
 func (r *Reader) getWriteForRead(key []byte, readTs uint64) (*Write, uint64, error) {
